@@ -223,13 +223,14 @@ def highestbar(
     high = None
     distance = 0
 
-    for idx, index in enumerate(range(index_, index_ - length, -1)):
+    for idx, index in enumerate(range(index_, max(index_ - length, -1), -1)):
         current = reading_by_index(candles, indicator, index)
         if current is None:
             continue
 
         if high is None:
             high = current
+            distance = idx
 
         if high < current:
             high = current
@@ -252,13 +253,14 @@ def lowestbar(
     low = None
     distance = 0
 
-    for idx, index in enumerate(range(index_, index_ - length, -1)):
+    for idx, index in enumerate(range(index_, max(index_ - length, -1), -1)):
         current = reading_by_index(candles, indicator, index)
         if current is None:
             continue
 
         if low is None:
             low = current
+            distance = idx
 
         if low > current:
             low = current
